@@ -54,6 +54,7 @@ def verify_one(args):
         solve.DEADLINE[0] = time.time() + budget
         reg = load_all()
         con = reg[qual]
+        con = getattr(con, "concrete", con)       # a function whose call-site contract is an abstraction is verified against its concrete contract
         if qual.startswith("body:"):
             res = C.verify_body(con, reg, initial=initial)
         else:
